@@ -192,9 +192,10 @@ def hx(b): return b.hex() if b else "-"
 def write_case_text(d, cid, fault="none", topo=None):
     lines = ["case %s mode=write mesh=%s topo=%s fault=%s" % (cid, d.mesh, topo or d.topo, fault)]
     if d.nv: lines.append("k AddVs %d" % d.nv)
-    for (a, b) in d.E: lines.append("k @AddE %d %d 1" % (a, b))
-    for f in d.F: lines.append(("k @AddF 0 " + " ".join(map(str, f))) if f else "rawF")
-    for c in d.C: lines.append(("k @AddC 0 " + " ".join(map(str, c))) if c else "rawC")
+    big = len(d.E) + len(d.F) + len(d.C) > 2000      # the script layer resolves operands in O(n) per line: go through the API directly
+    for (a, b) in d.E: lines.append(("rawE %d %d" % (a, b)) if big else ("k @AddE %d %d 1" % (a, b)))
+    for f in d.F: lines.append(("rawF " + " ".join(map(str, f))) if (big or not f) else ("k @AddF 0 " + " ".join(map(str, f))))
+    for c in d.C: lines.append(("rawC " + " ".join(map(str, c))) if (big or not c) else ("k @AddC 0 " + " ".join(map(str, c))))
     for l in d.extra_k: lines.append("k " + l)
     for v, p in sorted(d.pos.items()): lines.append("pos %d %s %s %s" % (v, p[0].hex(), p[1].hex(), p[2].hex()))
     for (k, t, n, df, vals) in d.props: lines.append("prop %s %s %s %s %s" % (k, t, hx(n), hx(df), " ".join(hx(v) for v in vals)))
